@@ -4,6 +4,8 @@ import (
 	"crypto/rand"
 	"encoding/hex"
 	"hash/crc64"
+
+	"github.com/plgd-dev/go-coap/v3/pkg/verifhook"
 )
 
 type Token []byte
@@ -19,6 +21,9 @@ func (t Token) Hash() uint64 {
 // GetToken generates a random token by a given length
 func GetToken() (Token, error) {
 	b := make(Token, 8)
+	if verifhook.RandRead(b) {
+		return b, nil
+	}
 	_, err := rand.Read(b)
 	// Note that err == nil only if we read len(b) bytes.
 	if err != nil {
